@@ -414,4 +414,16 @@ theorem C15_genloadv1_premises_sound (printable : Char → Bool) (g : VIn) (oute
     wellScoped printable g outer = true :=
   premisesB_sound printable g outer h
 
+open DW.GenLoadV1 in
+/-- **C15 (v1 skeleton, spelling).**  Whatever a field is called — the template's own variable names, its outside names, Python
+builtins included — its variable `__<f>__v` is none of the seven locals the template binds itself and none of the fourteen outside
+names it reads; distinct fields get distinct variables; so the variables handed to the constructor are pairwise distinct (a required
+CatchAll field's variable included) and every required field is among them.  Renaming the fields of a class consistently therefore
+cannot make two of them, or one of them and the template, share a name in the generated function. -/
+theorem C15_genloadv1_field_vars_fresh (g : VIn) (m : S) :
+    (fieldVar m ∉ fixedLocals ∧ fieldVar m ∉ allOuter) ∧
+    ((g.fields.map (·.name)).Nodup → (∀ n idx, g.catchAll = .required n idx → n ∉ g.fields.map (·.name)) → (ctorVars g).Nodup) ∧
+    (∀ f ∈ g.fields, f.hasDefault = false → fieldVar f.name ∈ ctorVars g) :=
+  ⟨fieldVar_fresh m, ctorVars_nodup g, fun f hf hd => ctorVars_complete g f hf hd⟩
+
 end DW.Props.C15
